@@ -3,6 +3,7 @@
 import itertools
 import random
 
+from .. import suiteengine
 from ..common import new_scratch, rmtree, split_seeds, clear_atexit_tmp_handlers, ncpu, DEFAULT_NS
 from ..gen import make_content, random_meta_op, op_shape, chunk
 from ..runner import ShardResult
@@ -70,6 +71,7 @@ def shards(tier, seed):
     nrand = 200 if tier == "quick" else 5000
     for s in split_seeds(seed * 1000 + 11, n):
         out.append(("rand", nrand // n, None, tier, s))
+    out.append(("suite", 0, None, tier, 0))
     return out
 
 
@@ -101,6 +103,9 @@ def run_seq(pool, ops, res, pids, fmts):
 
 def run_shard(mode, n, firsts, tier, sub_seed):
     res = ShardResult()
+    if mode == "suite":
+        suiteengine.run(res, ID)
+        return res
     scratch = new_scratch("c11")
     contents = {k: make_content(v["cseed"], v["size"]) for k, v in SPEC.items()}
     docs = {k: make_content(v["cseed"], v["size"]) for k, v in DOCSPEC.items()}
